@@ -489,7 +489,14 @@ pub fn patch(
                     premultiplied = None;
                     &mut base_grid[idx]
                 } else {
-                    let alpha_bit_depth = image_header.metadata.ec_info[alpha_idx].bit_depth;
+                    // The alpha channel index of a patch comes from the bitstream; it might not exist.
+                    let Some(alpha_info) = image_header.metadata.ec_info.get(alpha_idx) else {
+                        return Err(jxl_bitstream::Error::ValidationFailed(
+                            "patch blending refers to a non-existent alpha channel",
+                        )
+                        .into());
+                    };
+                    let alpha_bit_depth = alpha_info.bit_depth;
                     let (base, alpha) = if idx < alpha_idx + color_channels {
                         let (l, r) = base_grid.split_at_mut(alpha_idx + color_channels);
                         r[0].convert_to_float_modular(alpha_bit_depth)?;
